@@ -609,5 +609,33 @@ func fallbackCase(c *Case, lean *LeanDriver) Verdict {
 			v.EngVsModel = fmt.Sprintf("model says native=%s, engine native=%v", modelNative, native)
 		}
 	}
+	// the same query through a distributed engine (fallback enabled) whose remote engines run
+	// without fallback: whatever a remote engine cannot do must still be answered - by the
+	// coordinator's fallback - and never surface as an error where the reference engine answers
+	if v.Other == "" && prom.Kind != "err" {
+		if msg := distributedFallback(ctx, c, prom); msg != "" {
+			v.Other = msg
+		}
+	}
 	return v
+}
+
+func distributedFallback(ctx context.Context, c *Case, prom Result) string {
+	data := c.Data()
+	parts := [][]SeriesData{nil, nil}
+	for i, s := range data {
+		parts[i%2] = append(parts[i%2], s)
+	}
+	eo := promql.EngineOpts{Timeout: time.Hour, MaxSamples: 50000000,
+		LookbackDelta: time.Duration(c.Lookback) * time.Millisecond, EnableAtModifier: true, EnableNegativeOffset: true}
+	var remotes []api.RemoteEngine
+	for _, p := range parts {
+		remotes = append(remotes, engine.NewLocalEngine(engine.Opts{EngineOpts: eo, DisableFallback: true}, NewMemStorage(p)))
+	}
+	de := engine.NewDistributedEngine(engine.Opts{EngineOpts: eo}, api.NewStaticEndpoints(remotes))
+	dist := c.Exec(ctx, de, NewMemStorage(c.Data()))
+	if dist.Kind == "err" {
+		return fmt.Sprintf("distributed engine with fallback (remote engines without): %s, where the reference engine answers", dist.Err)
+	}
+	return ""
 }
